@@ -471,5 +471,11 @@ def rfwd_forwarding(chk: Check) -> None:
     shared.forwarding_rule(chk, "C08.FWD", ('specs/openapi/_cache.py:', 'specs/openapi/schemas.py:BaseOpenAPISchema.make_operation', 'specs/openapi/schemas.py:BaseOpenAPISchema._raise_invalid_schema', 'core/errors.py:'), "operation construction / error location", 4)
 
 
+def r8_lazy_fields_single_source(chk: Check) -> None:
+    from . import shared
+
+    shared.lazy_field_single_writer_rule(chk, "C08.R8", {"specs/openapi/schemas.py:BaseOpenAPISchema.resolver": "self.raw_schema", "specs/openapi/schemas.py:BaseOpenAPISchema.rewritten_components": None}, "the resolver and the rewritten components every reference of an operation is resolved through are derived from the loaded document")
+
+
 def rules(tier: str) -> list:  # type: ignore[type-arg]
-    return [r1_scope_pairs, r2_merge_order, r3_constructors, r4_no_drop, r5_yaml, r6_iteration_local_scope, r7_scope_not_held_across_yield, rfwd_forwarding]
+    return [r1_scope_pairs, r2_merge_order, r3_constructors, r4_no_drop, r5_yaml, r6_iteration_local_scope, r7_scope_not_held_across_yield, r8_lazy_fields_single_source, rfwd_forwarding]
